@@ -446,10 +446,19 @@ def replay(check, case):
     return dict(cls=v[0], expected=v[1], observed=v[2])
 
 
+def shard_discover(arg):
+    """field discovery as a shard: the main process never runs library code"""
+    sh = Shard()
+    sh.extra["fields"] = discover_fields(catalog.toy_from_case(arg))
+    sh.n = sh.nt = 1
+    return sh
+
+
 def main(ctx):
     t = toy()
     trec = t.rec()
-    fields = discover_fields(t)
+    pre = common.run_shards(ctx, [(shard_discover, None, trec)])
+    fields = sorted(pre.extra.get("fields", []))
     ops = list(ops_table())
     jobs = []
     # mode A: all interleavings, every ordered pair of operations
